@@ -363,6 +363,13 @@ func (s *socket) MaybeUpgrade(transport transports.Transport) {
 
 	// we force a polling cycle to ensure a fast upgrade
 	check = func() {
+		// a flush in progress has tested Writable and is about to hand its batch over: the noop
+		// must not race that batch for the pending poll (the loser is a "polling write error")
+		if !s.flushMu.TryLock() {
+			return
+		}
+		defer s.flushMu.Unlock()
+
 		if transports.POLLING == s.Transport().Name() && s.Transport().Writable() {
 			verifhook.At("upgrade.check", s.id)
 			socket_log.Debug("writing a noop packet to polling for fast upgrade")
